@@ -2,7 +2,7 @@
    Proved on the sequence machine: a removal deletes exactly that child from both views and keeps the relative order of
    the others.  The "behaves like a fresh element" half is FALSE on the machine (and on the code) whenever an optional
    nested sequence was activated: pinned below.  *)
-From MX Require Import Spec.Particle Gen.Names Gen.Templates Model.AbsSeq Model.Classes Model.SeqMachine Model.PyM Model.PyObs.
+From MX Require Import Spec.Particle Gen.Names Gen.Templates Model.AbsSeq Model.AbsSeqC02 Model.Classes Model.SeqMachine Model.SeqRemove Model.PyM Model.PyObs.
 From Coq Require Import List Bool Arith.
 Import ListNotations.
 
@@ -11,6 +11,23 @@ Theorem C11_partial_views : forall s k c b, nth_error (ins s) k = Some (c, b) ->
   AbsSeq.ordered (tree s') = filter (keep c) (AbsSeq.ordered (tree s)) /\ ins s' = filter (keep c) (ins s) /\ snd (mstep s (MRemove k)) = MOk.
 Proof. intros s k c b E. simpl. rewrite E. simpl. split; [apply ordered_remove|split; reflexivity]. Qed.
 Print Assumptions C11_partial_views.
+
+(* the property itself, where it holds: for every template WITHOUT optional nested sequence (46 of today's 94 types), every
+   history and every removed child, the element then is - up to child ids - in the state of a fresh element to which the
+   remaining children were added in their insertion order: same children view, same verdict, same acceptance of every child *)
+Theorem C11_partial_noopt : forall k l t, In (k, l) lib_templates -> Classes.is_seq l = true -> stree_of l = Some t -> has_opt_t t = false ->
+  forall ops i c b, nth_error (ins (mrun t ops)) i = Some (c, b) ->
+  let s1 := fst (mstep (mrun t ops) (MRemove i)) in
+  exists s2, addw (map snd (ins s1)) 0 (AbsSeq.init t) = Some s2 /\ erase s2 = erase (tree s1)
+    /\ AbsSeq.names (AbsSeq.ordered s2) = AbsSeq.names (AbsSeq.ordered (tree s1))
+    /\ (forall a n n', option_map erase (AbsSeq.add n a s2) = option_map erase (AbsSeq.add n' a (tree s1))).
+Proof.
+  intros k l t _ S St NO ops i c b E. destruct (is_seq_parts l S) as (t' & St' & W & ND). rewrite St in St'. injection St' as <-.
+  apply (C11_machine t ops i c b (no_opt_init t NO) ND E).
+Qed.
+Print Assumptions C11_partial_noopt.
+Example C11_nonvacuous : Nat.leb 40 (List.length (filter (fun kl => match stree_of (snd kl) with Some t => Classes.is_seq (snd kl) && negb (has_opt_t t) | None => false end) lib_templates)) = true.
+Proof. vm_compute. reflexivity. Qed.
 
 (* the sticky activation: [add an optional group's member; remove it] leaves the group's required member "required" *)
 Example C11_refuted_sticky_machine :
